@@ -771,6 +771,8 @@ namespace riddle
 
                 do
                 {
+                    if (tk->sym != ID_ID) // (after a comma)
+                        error("expected identifier..");
                     ns.emplace_back(*static_cast<id_token *>(tk));
                     tk = next();
                     if (tk->sym == EQ_ID)
